@@ -20,8 +20,17 @@ RULE = ("cases: random rooted trees with 2..7 nodes incl. chains rooted at an en
         "full-rank bonds for reversibility and redundant bonds otherwise; Hermitian TTNOs; 2-3 consecutive steps; "
         "EXPM mode; plus saturated two-node cases. non-trivial = distinct (shape, variant, seed) with >= 3 nodes "
         "or a saturated two-node case")
-PARTIAL = ["conservation/reversibility are proved for abstract invertible local flows (palindromic_reversible); that the "
-           "library's local updates are such flows (gauge independence of the projectors) is decided by the oracle",
+PARTIAL = ["conservation/reversibility are proved for abstract local flows (palindromic_reversible, runFlow_neg_reverse, "
+           "runFlow_merge, runFlow_conserves, runFlow_monotone) and for one local update with an isometric or "
+           "zero-padded partially isometric embedding (local_update_conserves_norm/energy/norm_padded, "
+           "saturated_local_flow_is_full); that the library's local updates are such flows (E isometric by C03, gauge "
+           "independence of the projectors) is decided by the oracle",
+           "structure: proved on the C02 structural model under well-formedness and the label invariant "
+           "(Ptn.C06.link_update_structure, centre_move_structure, tdvp_step_structure: root, identifiers, parents kept, "
+           "children up to order with the exact child-order effect of each event, every node keeps exactly its open "
+           "axes; the *_structure_partial versions are kept with the weaker statement without open legs); bond "
+           "dimensions and temporary identifiers are inputs of that model, which is compared with the library in the "
+           "comp stream of C02; here the oracle checks relations and shapes on algo.state",
            "floating-point accuracy of expm/QR is by contract"]
 ASSUMPTIONS = ["dense reference: eigh-based propagator for the two-node exactness clause"]
 
